@@ -138,19 +138,28 @@ def pbox_pairs(chk, tier):
     for d in "fpo":
         for o in ("add", "sub", "mul", "div"):
             ops.append((o, d))
-    ops += [("add", "i"), ("mul", "i")]
+    ops += [("add", "i"), ("mul", "i"), ("sub", "i"), ("div", "i")]
     ops += [("num", k) for k in ("add", "rsub", "mul", "rdiv", "div")] + [("unary", k) for k in ("exp", "log", "sqrt", "neg", "recip")]
     ops += [("env", None), ("imp", None), ("stack", None), ("nested", None)]
     reps = 1 if tier == "quick" else 12
-    for rep_i in range(reps):
-        for (kind, arg) in ops:
-            kx = rng.choice(pbx.KINDS + pbx.TOUCH)
-            ky = rng.choice(["pos", "neg", "straddle", "interval", "precise", "touch"])
+    # every run: each arithmetic operation under each dependency on each pairing of definite / straddling signs
+    # (the sign routing of products and quotients has one branch per pairing)
+    SIGN_PAIRS = [("pos", "neg"), ("neg", "pos"), ("pos", "pos"), ("neg", "neg"), ("straddle", "pos"), ("straddle", "neg"), ("pos", "straddle"), ("neg", "straddle")]
+    grid = [(o, d, kx, ky) for d in "fpoi" for o in ("mul", "div", "add", "sub") for (kx, ky) in SIGN_PAIRS
+            if not (o == "div" and ky == "straddle") and not (o in ("add", "sub") and (kx, ky) not in SIGN_PAIRS[:2] + SIGN_PAIRS[4:5])]
+    todo = [(kind, arg, None, None, 0) for (kind, arg) in ops]
+    for rep_i in range(1, reps):
+        todo += [(kind, arg, None, None, rep_i) for (kind, arg) in ops]
+    todo += [(o, d, kx, ky, "grid") for (o, d, kx, ky) in grid]
+    if True:
+        for (kind, arg, fkx, fky, rep_i) in todo:
+            kx = fkx or rng.choice(pbx.KINDS + pbx.TOUCH)
+            ky = fky or rng.choice(["pos", "neg", "straddle", "interval", "precise", "touch"])
             X = pbx.gen_bounds(rng, 200, kx, dy=False)
             Y = pbx.gen_bounds(rng, 200, ky, dy=False)
             if kind in ("div",) or (kind == "add" and False):
                 pass
-            if kind == "div" or (kind in ("add", "sub", "mul", "div") and kind == "div"):
+            if kind == "div" and fky is None:
                 Y = pbx.gen_bounds(rng, 200, rng.choice(["pos", "neg"]), dy=False)
             if kind == "unary" and arg in ("log", "sqrt", "recip"):
                 X = pbx.gen_bounds(rng, 200, "pos", dy=False)
